@@ -760,8 +760,15 @@ impl ValveServer {
     }
 
     fn malformed(&self, cx: &mut Cx, kind: Kind) -> Vec<u8> {
-        match cx.draw(4) {
+        match cx.draw(5) {
             0 => vec![0xff, 0xff, 0xff],
+            4 if kind == Kind::Players && self.payload_for(kind).get(1).map_or(false, |c| *c < 250) && self.payload_for(kind).len() < 1200 => {
+                // the valid players reply, announcing more entries than it carries (it ends at an entry boundary)
+                let mut d = vec![0xff, 0xff, 0xff, 0xff];
+                d.extend_from_slice(&self.payload_for(kind));
+                d[5] += 1 + cx.draw(3) as u8;
+                d
+            }
             3 if kind != Kind::Ffow => {
                 // a complete, valid reply - to another kind of request
                 let other = match kind {
